@@ -303,6 +303,12 @@ pub fn check(rep: &mut CaseReport, events: &[Event], cfg: &AcceptCfg, out: Optio
     if cfg.hanging_connects.is_some() {
         rep.counters.inc("c13_cases_with_abandoned_connects");
     }
+    if cfg.early_connect.is_some() {
+        rep.counters.inc("c13_cases_with_a_connect_pending_while_others_are_abandoned");
+    }
+    if cfg.client_id_base.is_some() {
+        rep.counters.inc("c13_cases_with_equal_ids_from_different_addresses");
+    }
 
     // ---- slot-wait ----
     if let (Some((m, _)), Some(o)) = (cfg.limit, out) {
